@@ -385,8 +385,8 @@ func runC10(r *Report, rng *rand.Rand, thorough bool) {
 				}
 				if old {
 					// the legacy mode embeds the referenced members and inlines the others, so the field list depends on which
-					// members are references. What it must keep in every order: when an inline member of type object allows additional
-					// properties the merged struct holds them (field AdditionalProperties), and a struct that has the field
+					// members are references. What it must keep in every order: when an inline member of type object with properties of its own allows
+					// additional properties (a member that has nothing but additionalProperties is a map type, which the legacy mode embeds as such) the merged struct holds them (field AdditionalProperties), and a struct that has the field
 					// (tagged json:"-") also has the accessors and the custom (un)marshallers that fill and emit it - a field
 					// without them silently drops every additional member of a valid instance
 					if p, perr := parseGo(code); perr == nil {
@@ -410,7 +410,7 @@ func runC10(r *Report, rng *rand.Rand, thorough bool) {
 						inlineAddl := false
 						if nest == "flat" {
 							for pi, mi := range perm {
-								if pi%2 == 1 && members[mi].Type == "object" && (members[mi].Addl == "true" || members[mi].Addl == "s" || members[mi].Addl == "i") {
+								if pi%2 == 1 && members[mi].Type == "object" && len(members[mi].Props) > 0 && (members[mi].Addl == "true" || members[mi].Addl == "s" || members[mi].Addl == "i") {
 									inlineAddl = true
 								}
 							}
@@ -430,6 +430,13 @@ func runC10(r *Report, rng *rand.Rand, thorough bool) {
 				if !ok {
 					if n == 1 {
 						continue // a single $ref member is an alias of that member
+					}
+					nprops := 0
+					for _, m := range members {
+						nprops += len(m.Props)
+					}
+					if nprops == 0 {
+						continue // no member has properties: the merged type is a map / free-form type, not a struct
 					}
 					r.Violate("allof_not_a_struct", "merged type is not a struct", replay)
 					continue
